@@ -35,12 +35,29 @@ let flush_misses opidx =
   List.iter (fun m -> pr "obs %d oracle-miss %s\n" opidx m) (List.rev !oracle_misses);
   oracle_misses := []
 
+let rec drop_list k l = if k = 0 then l else match l with [] -> [] | _ :: t -> drop_list (k - 1) t
 let split_list (s : string) : string list = if s = "-" || s = "" then [] else String.split_on_char ',' s
 let kv (toks : string list) : (string * string) list =
   List.filter_map (fun t -> match String.index_opt t '=' with
       | Some i -> Some (String.sub t 0 i, String.sub t (i + 1) (String.length t - i - 1))
       | None -> None) toks
 let get kvs k d = match List.assoc_opt k kvs with Some v -> v | None -> d
+
+let blocks_cl : (int * peerblock) list ref = ref []
+let blocks_srv : (int * peerblock) list ref = ref []
+let parse_hp (s : string) : hostport =
+  match String.split_on_char ':' s with
+  | [ f; a; p; l ] -> { hp_fam = (if f = "4" then V4 else V6); hp_addr = bytes_of_hex a; hp_port = n_of_int (int_of_string p); hp_plen = n_of_int (int_of_string l) }
+  | _ -> failwith "hp"
+let block_line (toks : string list) =
+  match toks with
+  | which :: idx :: rest ->
+      let k = kv rest in
+      let b = { b_type = n_of_int (int_of_string (get k "type" "0"));
+                b_hosts = List.map parse_hp (List.filter (fun x -> x <> "") (String.split_on_char ';' (get k "hosts" ""))) } in
+      if which = "cl" then blocks_cl := !blocks_cl @ [ (int_of_string idx, b) ] else blocks_srv := !blocks_srv @ [ (int_of_string idx, b) ]
+  | _ -> ()
+
 
 let tlv_of_tok (tk : string) : tlv =
   match String.index_opt tk ':' with
@@ -65,12 +82,13 @@ let parse_rewrite (name : string) (kvs : (string * string) list) : rewrite =
     rw_sup = List.map tlv_of_tok (split_list (get kvs "sup" "-")) }
 
 let case_begin () =
-  Hashtbl.reset rewrites; Hashtbl.reset rxids; Hashtbl.reset rxnames; Hashtbl.reset oracle; oracle_misses := []
+  blocks_cl := []; blocks_srv := []; Hashtbl.reset rewrites; Hashtbl.reset rxids; Hashtbl.reset rxnames; Hashtbl.reset oracle; oracle_misses := []
 
 let line (kind : string) (rest : string list) (raw : string) =
   ignore raw;
   match kind, rest with
   | "cfg", "rewrite" :: name :: toks -> Hashtbl.replace rewrites name (parse_rewrite name (kv toks))
+  | "cfg", "block" :: toks -> block_line toks
   | _ -> ()
 
 (* oracle lines of the implementation output for this case *)
@@ -217,9 +235,32 @@ let op_rewrite opidx impl toks =
        | _ -> ())
   | _ -> ()
 
+(* ---- C14: address matching ---- *)
+let op_addr opidx impl toks =
+  match toks with
+  | [ which; ty; fam; a; port ] ->
+      let srv = (which = "srv") in
+      let blocks = List.map snd (if srv then !blocks_srv else !blocks_cl) in
+      let s = { src_fam = (if fam = "4" then V4 else V6); src_addr = bytes_of_hex a; src_port = n_of_int (int_of_string port) } in
+      let ty = n_of_int (int_of_string ty) in
+      (* all matches, with the resumable cursor *)
+      let rec all from acc =
+        match find_conf_from (drop_list from blocks) (nat_of_int from) ty s srv with
+        | Some i -> let i = int_of_nat i in all (i + 1) (i :: acc)
+        | None -> List.rev acc in
+      let l = all 0 [] in
+      pr "obs %d addr %s\n" opidx (if l = [] then "none" else String.concat "," (List.map string_of_int l));
+      (match impl with
+       | Some [ "addr"; r ] ->
+           let first = if r = "none" then None else Some (nat_of_int (int_of_string (List.hd (String.split_on_char ',' r)))) in
+           spec opidx "C14_first" (spec_find blocks ty s srv first) (Printf.sprintf "%s %s" which a)
+       | _ -> ())
+  | _ -> ()
+
 let run (opidx : int) (impl : string list option) (toks : string list) : bool =
   match toks with
   | "choose" :: rest -> op_choose opidx impl rest; true
+  | "addr" :: rest -> op_addr opidx impl rest; true
   | "rewrite" :: rest -> op_rewrite opidx impl rest; true
   | "parse" :: rest -> op_parse opidx impl rest; true
   | "ser" :: rest -> op_ser opidx impl rest; true
